@@ -1,4 +1,18 @@
 ----------------------------- MODULE FindingsC07 -----------------------------
 EXTENDS Sequences
-Class(line, bad) == "none"
+(* F-C07-3: validateSecurityRequirement looks for Options.AuthenticationFunc before it looks at the      *)
+(* requirement: with no callback configured an EMPTY requirement ({} = anonymous access, "needs no       *)
+(* authentication") fails with ErrAuthenticationServiceMissing, although an empty LIST passes.           *)
+(* Trigger: no callback (opts "nocallback" / "nil") and the security list in effect holds an empty       *)
+(* requirement; wrong observation: the security part is reported as failing.                             *)
+Class(line, bad) ==
+   LET c == line.c
+       es == IF "absent" \in DOMAIN c.opSec THEN c.docSec ELSE c.opSec.list IN
+   IF /\ "opts" \in DOMAIN c /\ c.opts \in {"nocallback", "nil"}
+      /\ \E i \in DOMAIN es : es[i] = <<>>
+      /\ line.verdict = "error" /\ \E i \in DOMAIN line.parts : line.parts[i] = "security"
+      /\ bad \subseteq {"passes_when_all_parts_pass", "multi_errors_are_exactly_failing_parts", "error_names_a_failing_part",
+                        "same_answer_after_a_validation_with_other_options"}
+   THEN "no_callback_empty_requirement"
+   ELSE "none"
 =============================================================================
